@@ -1,7 +1,7 @@
 (* C14 — property theorems only (statements + [exact]); proofs in Proofs.v / Harness.v. *)
 From Coq Require Import List NArith ZArith Bool Znumtheory Lia.
 From V.Base Require Import Hex BigEndian.
-From V.C14 Require Import Model Bytes Proofs Text Curve Harness.
+From V.C14 Require Import Model Bytes Proofs Text Curve Jacobian Harness.
 Import ListNotations.
 Local Open Scope Z_scope.
 
@@ -167,6 +167,21 @@ Proof. exact add_comm. Qed.
 Theorem C14_g1_mul_closed : forall k a, g1_pt a -> g1_pt (g1_mul_nat k a).
 Proof. exact mul_nat_closed. Qed.
 Print Assumptions C14_g1_comm.
+
+(* curve.go's Jacobian formulas (modelled operation by operation, and compared with G1.ScalarMult / Sign on
+   256-bit scalars every run) compute that affine law: one Double and one generic Add of representatives
+   (X, Y, Z) ~ (X/Z^2, Y/Z^3) represent the affine double / chord sum. The whole double-and-add loop
+   = repeated affine addition is NOT proved (needs associativity). *)
+Theorem C14_jacobian_double : forall X Y Zc x y l,
+  jrep (X, Y, Zc) x y -> ~ eqP y 0 -> eqP (l * ((1 + 1) * y)) ((1 + 1 + 1) * (x * x)) ->
+  jrep (jdouble (X, Y, Zc)) (l * l - (1 + 1) * x) (l * (x - (l * l - (1 + 1) * x)) - y).
+Proof. exact jdouble_rep. Qed.
+Theorem C14_jacobian_add : forall X1 Y1 Z1 X2 Y2 Z2 x1 y1 x2 y2 l,
+  jrep (X1, Y1, Z1) x1 y1 -> jrep (X2, Y2, Z2) x2 y2 -> ~ eqP (x2 - x1) 0 ->
+  eqP (l * (x2 - x1)) (y2 - y1) -> 0 <= Z1 < P -> 0 <= Z2 < P ->
+  jrep (jadd (X1, Y1, Z1) (X2, Y2, Z2)) (l * l - x1 - x2) (l * (x1 - (l * l - x1 - x2)) - y1).
+Proof. exact jadd_rep. Qed.
+Print Assumptions C14_jacobian_add.
 
 (* ---- the code before the fixes: the property was false (witnesses re-checked by the kernel) ---- *)
 Theorem C14_overlong_refuted :
